@@ -21,6 +21,10 @@ from . import astx
 # sorted; atoms are tuples whose first element names the kind.
 
 
+def txt_(n) -> str:
+    return astx.txt(n)
+
+
 def _key(x) -> str:
     return repr(x)
 
@@ -166,6 +170,30 @@ def is_seq_kind(p: tuple) -> bool:
         if b is not None and b[0] == "seq" and is_seq_kind(b[1]):
             return True
     return False
+
+
+def norm_iter(t: tuple) -> tuple:
+    """Iteration domain of a value: list(x)/tuple(x) iterate x, d.keys() iterates d."""
+    a = single_atom(t)
+    while a is not None and a[0] == "call" and ((a[1] in ("list", "tuple", "iter") and len(a[2]) == 1) or (a[1] == ".keys" and len(a[2]) == 1)):
+        t = a[2][0]
+        a = single_atom(t)
+    if a is not None and a[0] == "seq" and single_atom(a[1]) == ("sym", f"#{a[3]}"):
+        return ("dom", a[2])  # [v for v in D] iterates D
+    return t
+
+
+def mk_tuple(elts: tuple) -> tuple:
+    """Tuple display with the eta rule (b[0], b[1]) = b for a bound variable b that is unpacked as a pair
+    (loop variables over edges; Python's own 2-target unpacking guarantees the length)."""
+    if len(elts) == 2:
+        a0, a1 = single_atom(elts[0]), single_atom(elts[1])
+        if a0 is not None and a1 is not None and a0[0] == "sub" and a1[0] == "sub" and a0[1] == a1[1] \
+                and a0[2] == (const(0),) and a1[2] == (const(1),):
+            b = single_atom(a0[1])
+            if b is not None and b[0] == "sym" and (b[1].startswith("#") or b[1].startswith("@")):
+                return a0[1]
+    return atom_poly(("tuple", elts))
 
 
 def concat(a: tuple, b: tuple) -> tuple:
@@ -437,6 +465,8 @@ class Translator:
 
     def t_Attribute(self, n):
         p = astx.attr_path(n)
+        if p is not None and p in self.env:
+            return self.env[p]  # attribute tracked as a pseudo-variable (self._jdd)
         if p is not None:
             root = p.split(".")[0]
             if root in self.env:
@@ -447,8 +477,8 @@ class Translator:
     def t_Subscript(self, n):
         base = self.tr(n.value)
         idx = n.slice
-        if not isinstance(idx, (ast.Tuple, ast.Slice)):
-            return subscript(base, self.tr(idx))
+        if not isinstance(idx, ast.Slice):
+            return subscript(base, self.tr(idx))  # x[a, b] is x[(a, b)]
         if isinstance(idx, ast.Tuple):
             ix = tuple(self.tr(e) for e in idx.elts)
         elif isinstance(idx, ast.Slice):
@@ -459,7 +489,7 @@ class Translator:
         return atom_poly(("sub", base, ix))
 
     def t_Tuple(self, n):
-        return atom_poly(("tuple", tuple(self.tr(e) for e in n.elts)))
+        return mk_tuple(tuple(self.tr(e) for e in n.elts))
 
     def t_List(self, n):
         return atom_poly(("list", tuple(self.tr(e) for e in n.elts)))
@@ -553,10 +583,19 @@ class Translator:
             r = self.reduction("prod", args[0])
             if r is not None:
                 return r
+        if name == "len" and len(args) == 1 and not kw:
+            return atom_poly(("call", "len", (norm_iter(self.tr(args[0])),)))
         if name in ("abs", "np.abs", "numpy.abs", "math.fabs", "np.fabs") and len(args) == 1:
             return atom_poly(("call", "abs", (self.tr(args[0]),)))
         if name in ("list", "tuple") and len(args) == 1 and not kw:
-            return atom_poly(("call", name, (self.tr(args[0]),)))
+            if isinstance(args[0], ast.Call) and txt_(args[0].func) == "range":
+                lvl = self._level()
+                return atom_poly(("seq", sym(f"#{lvl}"), self.domain(args[0]), lvl))  # list(range(..)) = [v for v in range(..)]
+            inner = self.tr(args[0])
+            ia = single_atom(inner)
+            if ia is not None and ia[0] == "call" and ia[1] == ".keys" and len(ia[2]) == 1:
+                inner = ia[2][0]  # list(d.keys()) = list(d)
+            return atom_poly(("call", name, (inner,)))
         targs = tuple(self.tr(a) for a in args)
         if not isinstance(n.func, (ast.Name, ast.Attribute)):
             # call of a computed callee, e.g. a callback table entry self._arr_fp[i](deg)
@@ -590,7 +629,9 @@ class Translator:
             return ("enumerate", self.domain(it.args[0]), start)
         if isinstance(it, ast.Call) and astx.txt(it.func) == "zip" and not it.keywords:
             return ("zip",) + tuple(self.domain(a) for a in it.args)
-        return ("iter", self.tr(it))
+        if isinstance(it, ast.Call) and isinstance(it.func, ast.Attribute) and it.func.attr == "keys" and not it.args:
+            return self.domain(it.func.value)  # iterating d.keys() is iterating d
+        return ("iter", norm_iter(self.tr(it)))
 
     def bind(self, target: ast.AST, level: int) -> Dict[str, tuple]:
         """Bound-variable environment for a loop/comprehension target at de Bruijn level: a name target is
